@@ -134,6 +134,7 @@ func replayCase(c caseIn) (res stepOut) {
 			res.Want = &c.Steps[i].Want
 			res.Note = note
 			res.Stable = stable
+			res.Safety = uniq(append(res.Safety, w.safety(got)...))
 
 			if note != "" {
 				res.Fields = append(res.Fields, "return")
@@ -196,6 +197,8 @@ func (w *world) safety(s snapshot) []string {
 			switch {
 			case j > s.YIn:
 				v = append(v, "both-vote;x-votes-after-later-voteproof")
+			case j == s.YIn && s.Xf:
+				v = append(v, "both-vote;x-goes-on-with-the-voteproof-y-entered-with;after-a-good-finish")
 			case j == s.YIn:
 				v = append(v, "both-vote;x-goes-on-with-the-voteproof-y-entered-with")
 			}
